@@ -11,7 +11,7 @@ PROP = "C06"
 NEED_JSONSCHEMA = True
 SHARDS = {"quick": 8, "thorough": 16}
 TIME_CAP = {"quick": 70, "thorough": 900}
-REQUIRED = ["agree_valid", "agree_invalid", "programs", "meta_schema_checks", "per_call_schema_programs", "std_programs", "all_refs_programs", "recursive_programs", "discriminated_families", "discriminated_agree"]
+REQUIRED = ["primitive_union_programs", "agree_valid", "agree_invalid", "programs", "meta_schema_checks", "per_call_schema_programs", "std_programs", "all_refs_programs", "recursive_programs", "discriminated_families", "discriminated_agree"]
 RULE = ("C01 program space + standard-library converted types (UUID, date/datetime/time, Decimal, bytes, Path, ip addresses, Pattern) x JSON data "
         "(atoms, model-valid data, boundary mutants, random deep JSON) x additional_properties x aliaser x all_refs x per-call schema=; data outside the common "
         "semantic domain are skipped and counted (integer-valued floats, duplicate items with set-typed positions, ill-formatted strings at format-only positions). "
@@ -273,6 +273,26 @@ def run(env):
     harness.tag_errors(True)
     from vf import disc
     disc.run_family(env, disc.check_c06, env.n(96, 4000))  # discriminated-union families first (their own budget)
+    # every ordered union of 2 or 3 bare primitives (the schema builder merges their "type" keywords)
+    import itertools
+    from vf.spec import Prim, Union_
+    prims = ["int", "float", "str", "bool", "none"]
+    combos = list(itertools.permutations(prims, 2)) + list(itertools.permutations(prims, 3))
+    for i, combo in enumerate(combos):
+        if i % env.nshards != env.shard:
+            continue
+        wrap = [lambda u: u, lambda u: Coll("list", u)][i // env.nshards % 2]
+        prog = Program(wrap(Union_([Prim(p) for p in combo])))
+        try:
+            prog.load()
+        except Exception:
+            env.count("program_load_failed")
+            continue
+        try:
+            check_program(env, prog, "prim-union:" + "|".join(combo), ndata=30, std=False)
+            env.count("primitive_union_programs")
+        finally:
+            prog.unload()
     rng = env.rng
     n = env.n(2600, 60000)
     small = [b for _, b in gen_types.enumerate_small(depth2=False)]
